@@ -352,6 +352,7 @@ func reduceFuncFrame(sk *Skeleton, rf *ast.FuncDecl) string {
 // test with it, and the text removed is exactly len(PREFIX) bytes (slice from len(PREFIX) or strings.TrimPrefix) —
 // a character-set operation (TrimLeft, Trim) also eats characters of x.
 func displayNameRule(c *Ctx, r *Report, clause string) {
+	symbolNamesWrittenOnce(c, r, clause)
 	gen := c.need(r, clause, "Parser", "", "genTempName")
 	if gen == nil {
 		return
@@ -669,4 +670,30 @@ func (cf *coverFn) collectsInto(rs *ast.RangeStmt, xObj types.Object, isNode fun
 		}
 	}
 	return false
+}
+
+// symbolNamesWrittenOnce — the names that traces, listings and diagrams print are the names read from the grammar file:
+// a grammar symbol's Name (and ID) and an identifier's Name are set where the value is constructed and never assigned
+// afterwards. The diagram and the listing run in the same process BEFORE the code generator (`-g`, `debug`): a
+// drawing routine that "prepares" the names for its own output (escaping, quoting) changes what the generator puts
+// into the trace tables.
+func symbolNamesWrittenOnce(c *Ctx, r *Report, clause string) {
+	for _, f := range []struct{ dir, typ, field string }{{"Symbol", "Symbol", "Name"}, {"Symbol", "Symbol", "ID"}, {"Parser", "Idendity", "Name"}} {
+		fv := lookupField(c, f.dir, f.typ, f.field)
+		construct := f.dir + "." + f.typ + "." + f.field + "/written-at-construction-only"
+		if fv == nil {
+			r.Undecided(clause, "WHO-WRITES", construct, "-", "field not found")
+			continue
+		}
+		ws := fieldWrites(c, fv)
+		bad := ""
+		for _, w := range ws {
+			if w.op != ":" {
+				bad = fmt.Sprintf("%s assigns it (`%s %s`) at %s", w.fn, w.op, w.path, c.pos(w.pos))
+			}
+		}
+		r.Check(bad == "" && len(ws) > 0, clause, "WHO-WRITES", construct, c.pos(fv.Pos()),
+			fmt.Sprintf("%d writer(s), all of them composite literals: the name a symbol was read with is the name every later stage sees", len(ws)),
+			"a symbol's name can change after it was read: "+bad+" — stages that run later in the same process (the code generator after `-g` / `debug`) print the altered name")
+	}
 }
